@@ -986,14 +986,11 @@ func listDiff(got, want listing) string {
 		}
 	}
 	gp := map[string]bool{}
-	for i, p := range got.Prefixes {
+	for _, p := range got.Prefixes {
 		if gp[p] {
 			return "a CommonPrefix is reported twice"
 		}
-		gp[p] = true
-		if i > 0 && got.Prefixes[i-1] >= p {
-			return "CommonPrefixes are not in ascending order"
-		}
+		gp[p] = true // the order among CommonPrefixes is not demanded by the property
 	}
 	wp := map[string]bool{}
 	for _, p := range want.Prefixes {
@@ -1019,6 +1016,9 @@ func (r *Run) opList(op *Op) {
 		return
 	}
 	paged := op.Max > 0 || (op.HasMk && op.Marker != "")
+	if !paged && r.refusedByConfig(resp) {
+		return
+	}
 	if paged && !r.Plan.Config.Paginates() {
 		r.checkFallback(op, x, resp, b)
 		return
@@ -1041,6 +1041,13 @@ func (r *Run) opList(op *Op) {
 	}
 	r.ok("list.exact")
 	r.logf("  -> %d contents %d prefixes", len(got.Contents), len(got.Prefixes))
+}
+
+// refusedByConfig: a non-paginating backend configured with the
+// unimplemented-page error refuses every listing, because an absent max-keys
+// means the default page size of 1000; the property allows the refusal.
+func (r *Run) refusedByConfig(resp *Resp) bool {
+	return r.Plan.Config.PageErr && !r.Plan.Config.Paginates() && resp.Status == 501 && resp.Code == "NotImplemented"
 }
 
 // checkFallback judges a paginated request against a non-paginating backend.
@@ -1079,14 +1086,23 @@ func (r *Run) checkPage(op *Op, x *xListResult, b *model.Bucket, marker string, 
 	if op.Max > 0 && len(got.Contents)+len(got.Prefixes) > op.Max {
 		r.fail("page.walk", "a page holds more entries than max-keys "+r.bctx(), fmt.Sprintf("<= %d", op.Max), fmt.Sprint(len(got.Contents)+len(got.Prefixes)))
 	}
-	// expected remainder after the marker
-	var live []string
+	// expected remainder after the marker.  A common prefix that is <= the
+	// marker, or that also rolls up keys <= the marker, may or may not be
+	// reported again (DESIGN appendix G).
+	var after, upto []string
 	for _, k := range b.LiveKeys() {
 		if !hasMarker || k > marker {
-			live = append(live, k)
+			after = append(after, k)
+		} else {
+			upto = append(upto, k)
 		}
 	}
-	ck, pk := model.Group(live, op.Prefix, op.Delim)
+	ck, pk := model.Group(after, op.Prefix, op.Delim)
+	_, pkBefore := model.Group(upto, op.Prefix, op.Delim)
+	optional := map[string]bool{}
+	for _, p := range pkBefore {
+		optional[p] = true
+	}
 	type ent struct {
 		name   string
 		prefix bool
@@ -1096,6 +1112,9 @@ func (r *Run) checkPage(op *Op, x *xListResult, b *model.Bucket, marker string, 
 		want = append(want, ent{k, false})
 	}
 	for _, p := range pk {
+		if hasMarker && p <= marker {
+			optional[p] = true
+		}
 		want = append(want, ent{p, true})
 	}
 	sort.Slice(want, func(i, j int) bool { return want[i].name < want[j].name })
@@ -1107,23 +1126,33 @@ func (r *Run) checkPage(op *Op, x *xListResult, b *model.Bucket, marker string, 
 		gotE = append(gotE, ent{p, true})
 	}
 	sort.Slice(gotE, func(i, j int) bool { return gotE[i].name < gotE[j].name })
-	for i, g := range gotE {
+	wi := 0
+	for _, g := range gotE {
 		if !g.prefix && hasMarker && g.name <= marker {
 			r.fail("page.walk", "a page returns a key that is not after the marker "+r.bctx(), "> "+marker, g.name)
 		}
-		if i >= len(want) || want[i] != g {
+		for wi < len(want) && want[wi] != g && want[wi].prefix && optional[want[wi].name] {
+			wi++ // an optional prefix the server chose not to repeat
+		}
+		if wi >= len(want) || want[wi] != g {
 			r.fail("page.walk", "a page after a client-chosen marker skips, repeats or invents an entry "+r.bctx(), fmt.Sprint(want), fmt.Sprint(gotE))
 		}
+		wi++
 	}
-	limit := len(want)
-	if op.Max > 0 && op.Max < limit {
-		limit = op.Max
+	remaining := 0
+	for _, w := range want[wi:] {
+		if !(w.prefix && optional[w.name]) {
+			remaining++
+		}
 	}
-	if len(gotE) != limit {
-		r.fail("page.walk", "a page after a client-chosen marker is shorter than both max-keys and the remainder "+r.bctx(), fmt.Sprint(want[:limit]), fmt.Sprint(gotE))
+	if op.Max > 0 && len(gotE) < op.Max && remaining > 0 {
+		r.fail("page.walk", "a page after a client-chosen marker is shorter than both max-keys and the remainder "+r.bctx(), fmt.Sprint(want), fmt.Sprint(gotE))
 	}
-	if x.IsTruncated != (len(want) > len(gotE)) {
-		r.fail("page.walk", fmt.Sprintf("IsTruncated=%v although %d entries remain %s", x.IsTruncated, len(want)-len(gotE), r.bctx()), fmt.Sprint(len(want) > len(gotE)), fmt.Sprint(x.IsTruncated))
+	if op.Max == 0 && remaining > 0 {
+		r.fail("page.walk", "an unlimited page after a client-chosen marker omits entries "+r.bctx(), fmt.Sprint(want), fmt.Sprint(gotE))
+	}
+	if !x.IsTruncated && remaining > 0 {
+		r.fail("page.walk", fmt.Sprintf("IsTruncated=false although %d entries remain %s", remaining, r.bctx()), "true", "false")
 	}
 	r.ok("page.walk")
 }
@@ -1142,6 +1171,7 @@ func (r *Run) opWalk(op *Op) {
 	want := r.expectedListing(b, op.Prefix, op.Delim)
 	total := len(want.Contents) + len(want.Prefixes)
 	var all listing
+	optional := map[string]bool{} // prefixes a walk from a client-chosen marker may or may not report
 	marker, has, token := op.Marker, op.HasMk, ""
 	lastName := ""
 	if has {
@@ -1161,6 +1191,21 @@ func (r *Run) opWalk(op *Op) {
 		want.Prefixes = pk
 		total = len(want.Contents) + len(want.Prefixes)
 		r.probe("walk from a client-chosen marker")
+		var upto []string
+		for _, k := range b.LiveKeys() {
+			if k <= marker {
+				upto = append(upto, k)
+			}
+		}
+		_, pb := model.Group(upto, op.Prefix, op.Delim)
+		for _, p := range pb {
+			optional[p] = true
+		}
+		for _, p := range pk {
+			if p <= marker {
+				optional[p] = true
+			}
+		}
 	}
 	pages := 0
 	for {
@@ -1222,6 +1267,19 @@ func (r *Run) opWalk(op *Op) {
 	}
 	sort.Slice(all.Contents, func(i, j int) bool { return all.Contents[i].Key < all.Contents[j].Key })
 	sort.Strings(all.Prefixes)
+	if len(optional) > 0 {
+		gotP := map[string]bool{}
+		for _, p := range all.Prefixes {
+			gotP[p] = true
+		}
+		var keep []string
+		for _, p := range want.Prefixes {
+			if gotP[p] || !optional[p] {
+				keep = append(keep, p)
+			}
+		}
+		want.Prefixes = keep
+	}
 	if d := listDiff(all, want); d != "" {
 		r.fail("page.walk", fmt.Sprintf("concatenated pages differ from the unpaginated listing: %s (delimiter=%q) %s", d, op.Delim, r.bctx()), want.String(), all.String())
 	}
@@ -1271,6 +1329,9 @@ func (r *Run) fullCheck(clause string) {
 			}
 		}
 		x, lresp := r.doList(&Op{B: bn}, nil)
+		if r.refusedByConfig(lresp) {
+			continue
+		}
 		if x == nil {
 			r.serverFailure(clause, "listing a bucket fails (full-store check) "+r.bctx(), "200", lresp.String())
 		}
